@@ -93,10 +93,23 @@ def c_shadow(ctx, args):
             return None
         circ = pc.brickwall_rcc(n, 2)
     else:
-        circ = pc.identity_circuit(n)
+        # 'fixed' | 'fixed_compiled' | 'fixed_mcircuit' | 'fixed_mcircuit_compiled': a deterministic circuit of either class, as built or compiled
+        circ = pc.identity_circuit(n) if 'mcircuit' not in kind else CI.Circuit(n)
         rng2 = __import__('random').Random(seed)
         for _ in range(3):
             circ.take(NP.mk_gate(gen.rgate(rng2, ctx.model, n, kinds=('gen', 'named'))))
+        if kind.endswith('compiled'):
+            circ.compile()
+        # povm(k): k independent copies of the back-evolved computational basis state
+        z = pc.zero_state(n)
+        circ.backward(z)
+        ref = S.st_list(z)
+        ys = list(circ.povm(max(2, nsample)))
+        for j, y in enumerate(ys):
+            if S.st_list(y) != ref:
+                return {'kind': 'oracle', 'where': 'np:povm sample %d of a %s circuit is not the back-evolved basis state' % (j, kind), 'observed': S.st_list(y), 'expected': ref, 'tags': ['povm']}
+        if len({id(y) for y in ys}) != len(ys):
+            return {'kind': 'oracle', 'where': 'np:povm yields the same object several times', 'observed': len({id(y) for y in ys}), 'expected': len(ys), 'tags': ['povm']}
     shadow = pc.ClassicalShadow(base, circ)
     # reproduce the povm states to know the measured basis: same seeds, same call order is not guaranteed for random circuits,
     # so the basis is taken from the snapshot itself: its stabilizer strings must span the same space as some back-evolved basis.
@@ -111,7 +124,7 @@ def c_shadow(ctx, args):
             ov = np.trace(S.rho(t) @ S.rho(st)).real
             if ov < 1e-12:
                 return {'kind': 'oracle', 'where': 'np:snapshot has zero overlap with the measured state', 'observed': ov, 'expected': '> 0'}
-    if kind == 'fixed':
+    if kind.startswith('fixed'):
         # deterministic circuit: the back-evolved basis is known; every snapshot is pure and stabilized up to sign by it
         z = pc.zero_state(n)
         circ.backward(z)
@@ -170,7 +183,7 @@ def run(ctx):
     for it in range(int(70 * B)):
         n = rng.randint(1, 4)
         t = gen.rtableau(rng, ctx.model, n)
-        kind = rng.choice(['onsite', 'global', 'brickwall', 'fixed', 'fixed'])
+        kind = rng.choice(['onsite', 'global', 'brickwall', 'fixed', 'fixed', 'fixed_compiled', 'fixed_compiled', 'fixed_mcircuit', 'fixed_mcircuit_compiled'])
         do(ctx, 'shadow', [t, kind, rng.randrange(10 ** 6), 3], nontrivial=('sh', kind, it))
         do(ctx, 'snapshot_corr', [t, gen.rtableau(rng, ctx.model, n, r=0), rng.randrange(10 ** 6)], nontrivial=('sc', it))
         ctx.res.count('shadow_' + kind)
